@@ -29,6 +29,8 @@ static void run(Ctx& c) {
         int k = int(r.below(8));
         if (k == 0 && !T.empty()) { size_t j = r.below(T.size()); T.push_back(T[j]); E.push_back(E[j]); desc += "repeat; "; continue; }
         std::vector<Val> alpha = alphabet(r, fs1);
+        // EV+ edge values are 64-bit: one root in four uses values outside the 32-bit range
+        if (fs1.isEVP() && r.chance(1, 4)) { for (auto& v : alpha) if (!v.isInf()) v = Val::in((r.chance(1, 2) ? 1 : -1) * (long(3000000000L) + long(r.below(1UL << 40)))); c.count("roots_with_64bit_edge_values"); }
         Table t;
         if (k == 1) { t.assign(size_t(w.tableSize(rel)), r.chance(1, 2) ? fs1.deflt() : alpha[0]); desc += "constant; "; }
         else if (k == 2 && !T.empty()) {   // shares a large sub-graph with an earlier root
